@@ -1,49 +1,38 @@
-/* C20: string round trip.  Library half proved; libc half (h3v_sprintf_lx / h3v_sscanf_lx) assumed. */
+/* C20: string round trip, stated on the BUFFER CONTENTS (so any correct formatter/parser satisfies it, libc-based or not).
+ * Library half proved; the behaviour of libc's sprintf/sscanf for "%lx" (h3v_sprintf_lx / h3v_sscanf_lx) is ASSUMED. */
 #include "common.h"
 #include "pre_libc.h"
 
-/* ghost state of the ASSUMED libc contracts */
-extern const char *h3v_fmt_dst;   /* where the last formatter call wrote */
-extern uint64_t h3v_fmt_val;      /* the value it formatted */
-extern int h3v_fmt_calls;
-extern int h3v_scan_calls;
-extern int h3v_scan_ret;          /* what the last parser call returned */
-extern uint64_t h3v_scan_val;     /* what it stored (if it returned 1) */
-
-/* ASSUMED: sprintf(dst, "%lx", v) writes the lowercase unpadded hex of v: 1..16 digits + NUL. */
+/* ASSUMED: sprintf(dst, "%lx", v) writes the lowercase unpadded hex of v (1..16 digits + NUL) and returns the digit count */
 int h3v_sprintf_lx_contract(char *dst, const char *fmt, uint64_t v)
 __CPROVER_requires(__CPROVER_r_ok(fmt, 4) && fmt[0] == '%' && fmt[1] == 'l' && fmt[2] == 'x' && fmt[3] == 0)
 __CPROVER_requires(__CPROVER_w_ok(dst, 17))
-__CPROVER_assigns(__CPROVER_object_upto(dst, 17), h3v_fmt_dst, h3v_fmt_val, h3v_fmt_calls)
-__CPROVER_ensures(__CPROVER_return_value >= 1 && __CPROVER_return_value <= 16)
-__CPROVER_ensures(dst[__CPROVER_return_value] == 0)
-__CPROVER_ensures(h3v_fmt_dst == dst && h3v_fmt_val == v && h3v_fmt_calls == __CPROVER_old(h3v_fmt_calls) + 1);
+__CPROVER_assigns(__CPROVER_object_upto(dst, 17))
+__CPROVER_ensures(__CPROVER_return_value == S_HEXLEN(v) && S_STR_IS_HEX(dst, v));
 
-/* ASSUMED: sscanf(src, "%lx", out) returns 1 and stores the value iff the text starts with a hex
- * number, otherwise returns 0 or EOF and stores nothing; it inverts the formatter above. */
+/* ASSUMED: sscanf(src, "%lx", out): parses text that is the hex form of a value w (h3v_w: universally quantified) to w and
+ * returns 1; returns 0 or EOF when the text cannot start a hexadecimal number; stores nothing unless it returns 1 */
 int h3v_sscanf_lx_contract(const char *src, const char *fmt, uint64_t *out)
 __CPROVER_requires(__CPROVER_r_ok(fmt, 4) && fmt[0] == '%' && fmt[1] == 'l' && fmt[2] == 'x' && fmt[3] == 0)
-__CPROVER_requires(__CPROVER_w_ok(out, 8))
-__CPROVER_assigns(*out, h3v_scan_ret, h3v_scan_val, h3v_scan_calls)
+__CPROVER_requires(__CPROVER_r_ok(src, 17) && __CPROVER_w_ok(out, 8))
+__CPROVER_assigns(*out)
 __CPROVER_ensures(__CPROVER_return_value == 1 || __CPROVER_return_value == 0 || __CPROVER_return_value == -1)
-__CPROVER_ensures(h3v_scan_ret == __CPROVER_return_value && h3v_scan_calls == __CPROVER_old(h3v_scan_calls) + 1)
-__CPROVER_ensures(__CPROVER_return_value == 1 ? *out == h3v_scan_val : *out == __CPROVER_old(*out))
-__CPROVER_ensures((src == h3v_fmt_dst) ==> (__CPROVER_return_value == 1 && *out == h3v_fmt_val));
+__CPROVER_ensures(__CPROVER_return_value != 1 ==> *out == __CPROVER_old(*out))
+__CPROVER_ensures(S_STR_IS_HEX(src, h3v_w) ==> (__CPROVER_return_value == 1 && *out == h3v_w))
+__CPROVER_ensures(!S_IS_SCAN_START(src[0]) ==> __CPROVER_return_value != 1);
 
 H3Error h3ToString_contract(H3Index h, char *str, size_t sz)
 __CPROVER_requires(sz < 17 || __CPROVER_is_fresh(str, sz))
-__CPROVER_requires(h3v_fmt_calls == 0)
-__CPROVER_assigns(sz >= 17 : __CPROVER_object_upto(str, 17); h3v_fmt_dst, h3v_fmt_val, h3v_fmt_calls)
-__CPROVER_ensures((sz < 17) ==> (__CPROVER_return_value == S_ERR_MEMORY_BOUNDS && h3v_fmt_calls == 0))
-__CPROVER_ensures((sz >= 17) ==> (__CPROVER_return_value == S_ERR_SUCCESS && h3v_fmt_calls == 1 &&
-                                  h3v_fmt_dst == str && h3v_fmt_val == h));
+__CPROVER_assigns(sz >= 17 : __CPROVER_object_upto(str, 17))   /* sz < 17: nothing may be written at all */
+__CPROVER_ensures((sz < 17) ==> __CPROVER_return_value == S_ERR_MEMORY_BOUNDS)
+__CPROVER_ensures((sz >= 17) ==> (__CPROVER_return_value == S_ERR_SUCCESS && S_STR_IS_HEX(str, h)));
 
 H3Error stringToH3_contract(const char *str, H3Index *out)
-__CPROVER_requires(__CPROVER_is_fresh(out, sizeof(H3Index)))
-__CPROVER_requires(h3v_scan_calls == 0)
-__CPROVER_assigns(*out, h3v_scan_ret, h3v_scan_val, h3v_scan_calls)
-__CPROVER_ensures(h3v_scan_calls == 1)
+__CPROVER_requires(__CPROVER_is_fresh(str, 17) && __CPROVER_is_fresh(out, sizeof(H3Index)))
+__CPROVER_assigns(*out)
 __CPROVER_ensures(__CPROVER_return_value == S_ERR_SUCCESS || __CPROVER_return_value == S_ERR_FAILED)
-__CPROVER_ensures((__CPROVER_return_value == S_ERR_SUCCESS) == (h3v_scan_ret == 1))
-__CPROVER_ensures(__CPROVER_return_value == S_ERR_SUCCESS ? *out == h3v_scan_val : *out == __CPROVER_old(*out))
-__CPROVER_ensures((str == h3v_fmt_dst) ==> (__CPROVER_return_value == S_ERR_SUCCESS && *out == h3v_fmt_val));
+__CPROVER_ensures(__CPROVER_return_value != S_ERR_SUCCESS ==> *out == __CPROVER_old(*out))
+/* the hex text of any value w parses back to w */
+__CPROVER_ensures(S_STR_IS_HEX(str, h3v_w) ==> (__CPROVER_return_value == S_ERR_SUCCESS && *out == h3v_w))
+/* text that cannot start a hexadecimal number: error, no result */
+__CPROVER_ensures(!S_IS_SCAN_START(str[0]) ==> __CPROVER_return_value == S_ERR_FAILED);
